@@ -622,14 +622,32 @@ def run_sqlite(case):
     pairs = [(i, client_examples(c)) for i, c in zip(ids, clients)]
     with sqlite_federated_data.SQLiteFederatedDataBuilder(path) as builder:
       pos = 0
+
+      def written_so_far(where):
+        # what add_many() has returned from is in the file: a reader on its own
+        # connection sees it while the builder is still open (a builder used
+        # without `with`, a crash between two batches)
+        peek = sqlite_federated_data.SQLiteFederatedData.new(path)
+        try:
+          have = sorted(peek.client_ids())
+        finally:
+          peek._connection.close()  # pylint: disable=protected-access
+        require(have == sorted(ids[:pos]), 'sqlite:batch_not_visible_after_add_many',
+                lambda: f'{where}: {len(have)} clients readable, {pos} written')
+
       for size in case['chunks']:
         chunk, pos = pairs[pos:pos + size], pos + size
         if case.get('as_iterator'):
           builder.add_many(iter(chunk))
         else:
           builder.add_many(chunk)
+        if case.get('peek'):
+          written_so_far(f'after a batch of {size}')
       if pos < len(pairs):
         builder.add_many(pairs[pos:])
+        pos = len(pairs)
+        if case.get('peek'):
+          written_so_far('after the last batch')
     fd = sqlite_federated_data.SQLiteFederatedData.new(path)
     try:
       require(fd.num_clients() == len(ids), 'sqlite:num_clients',
@@ -1071,7 +1089,8 @@ def sqlite_cases(draw, tier):
   missing = draw(st.one_of(st.sampled_from(['78787878', '', '00']),
                            st.binary(max_size=5).map(bytes.hex)))
   return {'clients': clients, 'chunks': chunks, 'missing': missing,
-          'as_iterator': draw(st.booleans()), 'buffer': draw(st.integers(1, 4))}
+          'as_iterator': draw(st.booleans()), 'buffer': draw(st.integers(1, 4)),
+          'peek': draw(st.booleans())}
 
 
 # --- pickled states
